@@ -40,11 +40,12 @@ PROPS["C03"] = {
         Job("soyhtml", "H_escape", "0..3", workers=8),
         Job("soyhtml", "H_decision", "0..3,0..3,0..8,0", workers=16),
         Job("soyhtml", "H_decision", "0..1,0..1,0..8,1..4", workers=16),
+        Job("soyhtml", "H_decision", "0..3,0..3,0..3,4..6", workers=16, note="cross-namespace calls"),
         Job("soyhtml", "H_nonString", "0..4", workers=4),
         Job("soyhtml", "H_escape", "4..5", tier="thorough", workers=16),
-        Job("soyhtml", "H_decision", "0..3,0..3,0..8,1..4", tier="thorough", workers=16, note="all modes in all contexts"),
+        Job("soyhtml", "H_decision", "0..3,0..3,0..8,1..6", tier="thorough", workers=16, note="all modes in all contexts"),
     ],
-    "bounds_quick": "htmlEscapeString on all strings of <= 3 bytes (256 values each); evalPrint escape decision for $x = any 2 non-NUL bytes under 4x4 namespace/template autoescape attributes x 9 directive chains (direct print) and 2x2 modes x 9 chains in let-content, param-content, msg-placeholder and cross-namespace call contexts; non-string values",
+    "bounds_quick": "htmlEscapeString on all strings of <= 3 bytes (256 values each); evalPrint escape decision for $x = any 2 non-NUL bytes under 4x4 namespace/template autoescape attributes x 9 directive chains (direct print) and 2x2 modes x 9 chains in let-content, param-content, msg-placeholder and cross-namespace call contexts; cross-namespace calls from a caller whose template / namespace is autoescape=false / true into a callee with each of the 4x4 namespace/template attributes x 4 chains (the callee's own mode decides); non-string values",
     "bounds_thorough": "escaper <= 5 bytes; all 16 mode pairs in every context",
     "outside": "strings longer than the bound; user-registered directives; changeNewlineToBr (regexp) is checked with concrete strings under C16; contextual escaping beyond what soy implements",
     "assumptions": ["decodeEntities (harness) is the reference decoder of the five character references"],
@@ -55,12 +56,13 @@ PROPS["C03"] = {
 # ---------------------------------------------------------------- C12
 PROPS["C12"] = {
     "jobs": [
-        Job("soyhtml", "H_fault", "0..6,0..3,0", workers=16),
-        Job("soyhtml", "H_fault", "0..6,0..1,1", workers=16),
-        Job("soyhtml", "H_fault", "0..6,0..3,2..3", workers=16, maxfan=300),
-        Job("soyhtml", "H_fault", "0..6,2..3,1", tier="thorough", workers=16),
+        Job("soyhtml", "H_fault", "0..8,0..3,0", workers=16),
+        Job("soyhtml", "H_fault", "0..8,0..1,1", workers=16),
+        Job("soyhtml", "H_fault", "0..8,0..3,2..3", workers=16, maxfan=300),
+        Job("soyhtml", "H_fault", "7..8,4,0..3", workers=8, maxfan=300, note="untranslated plural, n=1"),
+        Job("soyhtml", "H_fault", "0..8,2..3,1", tier="thorough", workers=16),
     ],
-    "bounds_quick": "7 templates covering every write site (incl. loops over 9 and 10 items) of the tree walker (raw text, escaped/unescaped print, css, literal, special chars, msg text/html tag/placeholder, let and param content blocks, log, call, data=all call, foreach, switch; the msg template also with a translating message bundle) x 4 data strings; four writer models: sticky failure from a symbolically chosen Write call, the same with a symbolic accepted prefix of the failing call (2 data strings), a writer with a symbolic byte capacity that still accepts empty writes once full, and a transient failure of exactly one symbolically chosen call",
+    "bounds_quick": "9 templates covering every write site (incl. loops over 9 and 10 items) of the tree walker (raw text, escaped/unescaped print, css, literal, special chars, msg text/html tag/placeholder, plural messages (as the last output and followed by output; source cases and the cases of a translating bundle), let and param content blocks, log, call, data=all call, foreach, switch; the msg template also with a translating message bundle) x 4 data strings; four writer models: sticky failure from a symbolically chosen Write call, the same with a symbolic accepted prefix of the failing call (2 data strings), a writer with a symbolic byte capacity that still accepts empty writes once full, and a transient failure of exactly one symbolically chosen call",
     "bounds_thorough": "short writes for all 4 data strings",
     "outside": "templates other than the listed ones; writers that fail and later recover",
     "assumptions": ["writer models as listed in bounds; a write that fails accepts a prefix of its argument"],
@@ -109,13 +111,14 @@ PROPS["C10"] = {
         Job("soymsg", "H_fpKnown", "", workers=1),
         Job("soymsg", "H_fp", "0..25", workers=8, qtimeout=3000, allow_inconclusive=True),
         Job("soymsg", "H_id", "0..4,0..2", workers=8, qtimeout=3000, allow_inconclusive=True),
-        Job("soymsg", "H_names", "0..9,-1..3", workers=16),
+        Job("soymsg", "H_idMeaning", "0..7,0..2", workers=8, qtimeout=3000, allow_inconclusive=True),
+        Job("soymsg", "H_names", "0..11,-1..3", workers=16),
         Job("soymsg", "H_baseName", "1..4", workers=16, maxfan=16),
         Job("soyhtml", "H_msgPositions", "0..13", workers=8),
         Job("soymsg", "H_fp", "26..40", tier="thorough", workers=8, qtimeout=3000, allow_inconclusive=True, note="3 blocks"),
         Job("soymsg", "H_id", "5..13,0..3", tier="thorough", workers=8, qtimeout=3000, allow_inconclusive=True, note="longer text"),
     ],
-    "bounds_quick": "fingerprint vs the official algorithm for every byte string of each length 0..25 (0, 1 and 2 twelve-byte blocks, every tail length); calcID with symbolic text (<= 4 bytes), description (2 bytes, two independent copies) and meaning (<= 2 bytes); base-name derivation (toUpperUnderscore and genBasePlaceholderName) for every identifier of <= 4 characters over {a,b,A,B,1,2,_} against a regexp-free reference; the id/placeholder pass (parsepasses.ProcessMessages) on a message placed in 14 containers (if/elseif/else, switch cases, foreach/ifempty, for, let content, call param content - also nested -, log) against the same message at top level; placeholder naming for a dictionary of 10 messages under an arbitrary iteration order of each of the 4 map loops of setPlaceholderNames, one loop at a time",
+    "bounds_quick": "fingerprint vs the official algorithm for every byte string of each length 0..25 (0, 1 and 2 twelve-byte blocks, every tail length); calcID with symbolic text (<= 4 bytes), description (2 bytes, two independent copies) and meaning (<= 2 bytes); the id of 8 structured messages (placeholders, html tags, plural) with a symbolic meaning (<= 2 bytes) and description against the official id of their placeholder string; base-name derivation (toUpperUnderscore and genBasePlaceholderName) for every identifier of <= 4 characters over {a,b,A,B,1,2,_} against a regexp-free reference; the id/placeholder pass (parsepasses.ProcessMessages) on a message placed in 14 containers (if/elseif/else, switch cases, foreach/ifempty, for, let content, call param content - also nested -, log) against the same message at top level; placeholder naming for a dictionary of 12 messages (incl. one expression under different directives and link tags differing in an attribute) under an arbitrary iteration order of each of the 4 map loops of setPlaceholderNames, one loop at a time",
     "bounds_thorough": "fingerprint lengths up to 40; text up to 13 bytes, meaning up to 3",
     "outside": "strings longer than the bound; collision-freeness (a 63-bit id cannot be injective); the branch hi==0 && lo in {0,1} is a hash pre-image question: explored under a 3 s query timeout and counted as inconclusive when the solver gives up; several map loops permuted at once (only one loop's order influences the result, shown per loop); across-process stability follows from calcID reading nothing but the node",
     "assumptions": ["refFingerprint/refID/refNames (harness) are transliterations of the official SoyMsgIdComputer and MsgNode.genSubstUnitInfo; refID is validated on every run against the official ids pinned in soy's tests"],
@@ -196,6 +199,7 @@ PROPS["C08"] = {
     "jobs": [
         Job("soyhtml", "H_pure", "0..2,0..1,false,0..5", workers=8),
         Job("soyhtml", "H_pure", "0..2,0..1,true,0..5", workers=8),
+        Job("soyhtml", "H_pure", "3,0,false,0..6", workers=8, note="through a translating catalogue"),
     ],
     "bounds": "3 two-file template sets covering print, let, if, foreach/ifempty, call with data=all / data=$m / value and content params, msg, css, switch, map and list literals, functions, $ij, and a render that fails half way; data: a symbolic 1-byte string, list of length 0 or 2, nested map; with and without an obligatory print directive; a first render, then optionally a render that fails inside a let-content / param-content / log block or a print, or a render into a writer that starts failing at a symbolically chosen write, then two more renders of the first template, all under frozen memory (one inductive step: no render writes what the next one reads; sync.Pool is modelled as a free list whose contents flow between renders); every later render must write the bytes of the first",
     "outside": "user directives/functions that themselves mutate their arguments; templates outside the dictionary; soyjs generation is checked under C09",
@@ -211,6 +215,7 @@ PROPS["C09"] = {
     "jobs": [
         Job("soyhtml", "H_pure", "0..2,0..1,false,0..5", workers=8),
         Job("soyhtml", "H_pure", "0..2,0..1,true,0..5", workers=8),
+        Job("soyhtml", "H_pure", "3,0,false,0..6", workers=8, note="through a translating catalogue"),
         Job("soyjs", "H_jsPure", "0..2,false", workers=2),
         Job("soyjs", "H_jsPure", "0..2,true", workers=2),
         Job("parse", "H_parseRace", "0..8", workers=8, note="happens-before check of scanner/parser memory accesses"),
@@ -228,6 +233,8 @@ PROPS["C13"] = {
     "jobs": [
         Job("soyjs", "H_jsPure", "0..2,false", workers=2, note="repeated generation from one registry"),
         Job("soyjs", "H_jsPure", "0..2,true", workers=2, note="repeated generation from one registry"),
+        Job("soyjs", "H_jsAfterFailure", "0..2,0..2,false", workers=4, note="generation after a failed generation"),
+        Job("soyjs", "H_jsAfterFailure", "0..2,0..2,true", workers=4, note="generation after a failed generation"),
         Job("soyjs", "H_jsOrder", "0..2,-1..3,false", workers=8, timeout=300),
         Job("soyjs", "H_jsOrder", "0..2,-1..3,true", workers=8, timeout=300),
         Job(".", "H_bundle", "0..7,0", workers=8, timeout=400, per_map_site=r"^(ast|data|parse|parsepasses|soyhtml|soyjs|soymsg|template|bundle|globals)"),
@@ -245,6 +252,7 @@ PROPS["C13"] = {
 PROPS["C17"] = {
     "jobs": [
         Job("parse", "H_roundLeaf", "0..19,0..6", workers=8),
+        Job("parse", "H_roundStr", "0..2,1..4", workers=16),
         Job("parse", "H_roundOps", "0..16,0..16,0..2", workers=16),
         Job("parse", "H_roundPrint", "0..19,0..3", workers=8),
     ],
@@ -321,9 +329,11 @@ PROPS["C14"] = {
 PROPS["C02"] = {
     "jobs": [
         Job("soyhtml", "H_program", "2,2,0..2", workers=16, timeout=900),
+        Job("soyhtml", "H_programBlocks", "2,3", workers=16, timeout=900),
+        Job("soyhtml", "H_programBlocks", "3,4", tier="thorough", workers=16, timeout=3000),
         Job("soyhtml", "H_program", "2,3,0..2", tier="thorough", workers=16, timeout=3000),
     ],
-    "bounds_quick": "template bodies generated from the command grammar (raw text, print, if/else, foreach/ifempty with isLast, let value, let content, call with data=all / data=$m / none and an optional param, switch with multi-value case/default, for-range, special characters/literal/css/log/msg) with at most 2 generated nodes (thorough: 3 and 4) up to nesting depth 2, followed by a fixed trailer printing the params, list lengths 0..2; names drawn from {a,b,i} so that lets shadow params and loop variables; data: a symbolic bool, b symbolic in {p,q}, a list and a map; compiled by the real parser (without the data-reference check so that unbound names reach the renderer) and rendered by the real interpreter; compared with an independent big-step reference semantics with block scoping and call isolation",
+    "bounds_quick": "template bodies generated from the command grammar (raw text, print, if/else, foreach/ifempty with isLast, let value, let content, call with data=all / data=$m / none and an optional param, switch with multi-value case/default, for-range, special characters/literal/css/log/msg) with at most 2 generated nodes (thorough: 3 and 4) up to nesting depth 2, followed by a fixed trailer printing the params, list lengths 0..2; names drawn from {a,b,i} so that lets shadow params and loop variables; data: a symbolic bool, b symbolic in {p,q}, a list and a map; a second generator profile restricted to output-redirecting blocks (text, print, let content, call with a content param, nested in each other) with at most 3 nodes, depth 2 (thorough: 4 nodes, depth 3); compiled by the real parser (without the data-reference check so that unbound names reach the renderer) and rendered by the real interpreter; compared with an independent big-step reference semantics with block scoping and call isolation",
     "bounds_thorough": "3 generated nodes for every list length (about 10^6 paths, 30 min)",
     "outside": "programs beyond the size bound; recursion; several namespaces/files and aliased call names (covered by the concrete bundles of C08/C13); header params",
     "assumptions": ["refRender (c02Env in the harness) is an independent transcription of the Soy command semantics: a let or loop variable lives in the block that introduces it; a callee sees the passed data plus its params only"],
@@ -354,12 +364,12 @@ PROPS["C07"] = {
 # ---------------------------------------------------------------- C11
 PROPS["C11"] = {
     "jobs": [
-        Job("soymsg/pomsg", "H_roundtrip", "0..5,0..2,0..2", workers=16, timeout=900),
+        Job("soymsg/pomsg", "H_roundtrip", "0..7,0..2,0..2", workers=16, timeout=900),
         Job("soymsg/pomsg", "H_plural", "1..3", workers=8, timeout=600),
         Job("soymsg/pomsg", "H_catalogue", "0..3", workers=8, timeout=600),
         Job("soymsg/pomsg", "H_sameID", "0..2", workers=8, timeout=600),
     ],
-    "bounds": "6 messages (text only; text + placeholders; repeated equal expressions; html tags; two expressions that differ only in parenthesisation; colliding placeholder base names) in 3 contexts (plain, inside a foreach, inside a called template) x 3 catalogues built with the real extraction functions (pomsg.Validate/Msgid/MsgidPlural -> newMessage -> soymsg.Parts): identity, parts reversed, message absent; data: symbolic int in [0,2] and a symbolic byte from {a,b,c,<}; pairs of messages that share an id (same text and placeholder names, different expressions) in one template; a three-message bundle (plural + two plain) loaded through the real newBundle from PO entries in 4 orders; plural message with {case 1}+{default} under catalogues with 1, 2 and 3 plural forms where the bundle's PluralCase returns an arbitrary index below the number of forms, or the English rule",
+    "bounds": "8 messages (text only; text + placeholders; repeated equal expressions; html tags; two expressions that differ only in parenthesisation; colliding placeholder base names; one expression printed with different directives; two link tags with different attributes) in 3 contexts (plain, inside a foreach, inside a called template) x 3 catalogues built with the real extraction functions (pomsg.Validate/Msgid/MsgidPlural -> newMessage -> soymsg.Parts): identity, parts reversed, message absent; data: symbolic int in [0,2] and a symbolic byte from {a,b,c,<}; pairs of messages that share an id (same text and placeholder names, different expressions) in one template; a three-message bundle (plural + two plain) loaded through the real newBundle from PO entries in 4 orders; plural message with {case 1}+{default} under catalogues with 1, 2 and 3 plural forms where the bundle's PluralCase returns an arbitrary index below the number of forms, or the English rule",
     "outside": "PO text syntax and file loading (robfig/gettext/po), locale fallback (x/text/language), the xgettext-soy main wrapper (its extract function is three calls which the harness mirrors), the JavaScript backend (no JS semantics in the engine); messages outside the dictionary; soymsg.Parts runs its regexp natively on concrete text",
     "assumptions": ["the expected value of a placeholder is what the real renderer prints for a template consisting of that expression alone (the evaluator itself is checked under C01)"],
     "level_text": "Bounded symbolic model checking of the extraction -> catalogue -> render pipeline for a message dictionary with symbolic data and a symbolic plural-form index: translated output is compared with the composition of the parts' own renderings.",
